@@ -132,10 +132,36 @@ func (r *hnRun) eventOf(val int) int {
 	return 3
 }
 
+// csOf / csBack: in alias mode the connection-state stream carries real states - Connected, Disconnected, Connected (and
+// Failed for the re-entrant extra event): a flap the application must hear about in full, however slow its handler is.
+var csAlias = map[int]ice.ConnectionState{1: ice.ConnectionStateConnected, 2: ice.ConnectionStateDisconnected, 4: ice.ConnectionStateFailed}
+
+func (r *hnRun) csOf(val int) ice.ConnectionState {
+	if r.job.Alias {
+		if s, ok := csAlias[val]; ok {
+			return s
+		}
+	}
+
+	return ice.ConnectionState(val)
+}
+
+func (r *hnRun) csBack(s ice.ConnectionState) int {
+	if r.job.Alias {
+		for v, x := range csAlias {
+			if x == s {
+				return v
+			}
+		}
+	}
+
+	return int(s)
+}
+
 func (r *hnRun) enqueue(e int) {
 	switch r.job.Stream {
 	case "cs":
-		r.n.EnqueueConnectionState(ice.ConnectionState(r.valOf(e)))
+		r.n.EnqueueConnectionState(r.csOf(r.valOf(e)))
 	case "cand":
 		r.n.EnqueueCandidate(r.cands[r.valOf(e)])
 	default:
@@ -583,7 +609,7 @@ func runNotifierGated(t *testing.T, job *hnJob, out *ndjson, st *tlStats, hp *hn
 			r.pairs = append(r.pairs, &ice.CandidatePair{})
 		}
 		r.n = ice.VerifNewNotifier(
-			func(cs ice.ConnectionState) { r.handler(r.eventOf(int(cs))) },
+			func(cs ice.ConnectionState) { r.handler(r.eventOf(r.csBack(cs))) },
 			func(c ice.Candidate) { r.handler(r.eventOf(slices.Index(r.cands, c))) },
 			func(p *ice.CandidatePair) { r.handler(r.eventOf(slices.Index(r.pairs, p))) },
 		)
